@@ -285,7 +285,8 @@ def noise_gauss(a: Union[np.ndarray, List], snr=None, snr_in_db=True, std=1.0):
     if snr is not None:
         if not np.isscalar(snr):
             snr = np.asarray(snr)
-        sp = np.mean(a**2)  # signal power
+        # signal power; squared in floating point: a**2 wraps around for integer-typed signals
+        sp = np.mean(np.asarray(a, dtype=float) ** 2)
 
         if snr_in_db is True:
             std_n = (sp / (10 ** (snr / 10))) ** 0.5
